@@ -260,12 +260,13 @@ GROUPS += [
                       "net::common::ErrorMapper::{in_progress,addr_in_use,probe_failed}", "Ipv4ByteOrder::adjust_length"],
         "stubs": [SOCK_STUB],
         "bounds": "packet sizes {28, 29, 37} + all out-of-range sizes; sequence, identifier, ports, ttl, tos, addresses "
-                  "symbolic; payload pattern 0xA5 (quick) / symbolic (thorough); privileged mode; network byte order",
+                  "symbolic; payload pattern 0xA5 (quick) / symbolic (thorough); privileged mode (raw headers) and unprivileged UDP "
+                  "(socket options); network byte order",
     },
     {
         "id": "C11.dispatch.v6", "property": "C11", "crate": "core", "stubbing": True, "cbmc_args": FS1100,
         "harnesses": ["c11_v6_dispatch_icmp", "c11_v6_dispatch_udp_min", "c11_v6_dispatch_udp_57", "c11_v6_size_guards",
-                      "c11_v6_dispatch_tcp"], "jobs": 5, "timeout_s": 1500, "mem_gb": 12,
+                      "c11_v6_dispatch_tcp", "c11_v6_dispatch_udp_unprivileged"], "jobs": 5, "timeout_s": 1500, "mem_gb": 12,
         "functions": ["net::ipv6::Ipv6::{dispatch_icmp_probe,dispatch_udp_probe,dispatch_udp_probe_raw,dispatch_tcp_probe,"
                       "make_echo_request_icmp_packet,make_udp_packet}"],
         "stubs": [SOCK_STUB],
